@@ -222,6 +222,15 @@ def tuples_agree(a, b, with_tags=True):
     return a[2] == b[2] and tuples_agree(a[3], b[3], with_tags) and tuples_agree(a[4], b[4], with_tags)
 
 
+def strip_tags(t):
+    k = t[0]
+    if k in "CV":
+        return (k, 0, t[2])
+    if k == "U":
+        return ("U", 0, t[2], strip_tags(t[3]))
+    return ("B", 0, t[2], strip_tags(t[3]), strip_tags(t[4]))
+
+
 def tuple_str(t):
     """Compact human-readable s-expression."""
     k = t[0]
@@ -487,6 +496,17 @@ RULES = {
     "bm": lambda: R.BalancedMoveRule(),
 }
 RULE_NAMES = list(RULES)
+
+# Rule objects are long-lived in real use (an environment holds one instance per rule and applies
+# it step after step), so the harness keeps ONE instance per configuration per process and uses it
+# for every search and every application, in whatever order the cases come.
+_PERSISTENT = {}
+
+
+def rule_instance(name):
+    if name not in _PERSISTENT:
+        _PERSISTENT[name] = RULES[name]()
+    return _PERSISTENT[name]
 
 
 def audit_links(root):
